@@ -105,8 +105,10 @@ theorem psi_startParse (W : World) (P : Nat) (t : Th) : psi W P (startParse t) â
   have := psi_parseNext W P { t with uses := t.calls.headD [] }
   simpa [startParse, uz, rz] using this
 
-theorem psi_nextUse (W : World) (P : Nat) (t : Th) : psi W P (nextUse t) â‰¤ 8 * (t.uses.length - 1) + 1 + rz W P t := by
-  have := psi_parseNext W P { t with uses := t.uses.tail }
+theorem psi_nextUse (W : World) (P : Nat) (t : Th) (c : Conv := .byType) :
+    psi W P (nextUse t c) â‰¤ 8 * (t.uses.length - 1) + 1 + rz W P t := by
+  have := psi_parseNext W P
+    { t with uses := t.uses.tail, vals := t.vals ++ (t.uses.head?.map fun u => (u.fld, c)).toList }
   simpa [nextUse, rz] using this
 
 theorem psi_leaveResolve (W : World) (P : Nat) (t : Th) :
@@ -190,7 +192,7 @@ theorem psi_raise (W : World) (P : Nat) (t : Th) (e : Outcome) :
 theorem psi_afterType (W : World) (P : Nat) (t : Th) (u : Use) (v : Val) (d : Bool) :
     psi W P (afterType W t u v d) â‰¤ 8 * (t.uses.length - 1) + 6 + rz W P t := by
   have h1 := psi_nextUse W P t
-  have h2 := psi_nextUse W P { t with wrongF := true }
+  have h2 := psi_nextUse W P { t with wrongF := true } .asIs
   simp only [rz] at h1 h2
   unfold afterType
   split
